@@ -25,6 +25,7 @@ batches of 0..9. Monitors decide, per layer and per trial:
 * the experimenter factory equals the hand-built composition it documents.
 """
 import copy
+import json
 import math
 import random
 
@@ -76,7 +77,7 @@ REQUIRED_COUNTERS = (
        'base_checked:hartmann', 'base_checked:multiobjective',
        'params_snapshot_checked', 'metric_names_checked', 'ps_by_value_checked',
        'ps_identity_checked', 'signflip_involution_checked',
-       'permute_bijections_checked', 'noisy_repro_sequences',
+       'permute_bijections_checked', 'noisy_repro_sequences', 'xproc_noise_sequences_compared',
        'normalize_order_pairs', 'batch_vs_single_checked',
        'infeasible_trials_seen', 'factory_differential_checked',
        'space_expectations_checked', 'clipped_shift_points'])
@@ -1401,8 +1402,99 @@ def run_factory_case(ctx, a, pseed, index):
 # ---------------------------------------------------------------------------
 # entry points
 # ---------------------------------------------------------------------------
+def gen_seeded_noisy_desc(rng, tier):
+  """A tree with at least one random noise wrapper, all of them seeded."""
+  for _ in range(200):
+    desc = gen_tree_desc(rng, None, tier=tier)
+    quiet = M(None, None, quiet=True)
+    root = build_tree(quiet, desc)
+    if root is None or not root.has_random_noise() or root.unseeded_permute():
+      continue
+    if any(n.kind == 'noisy' and n.args['type'] != 'NO_NOISE' and n.args['seed'] is None for n in root.walk()):
+      continue
+    return desc, root
+  return None, None
+
+
+def fresh_process_noise_repro(ctx, slot, replay_job=None):
+  """Seeded noise must be reproducible by a later *run*, not only by a second object in
+  this interpreter: the same trees are evaluated in two fresh interpreters started with
+  different string-hash salts (PYTHONHASHSEED) and compared with this process."""
+  import os
+  import subprocess
+  import sys
+  import tempfile
+  rng = ctx.rng(10_000_000 + slot, 'xproc')
+  if replay_job is None:
+    cases = []
+    for _ in range(6 if ctx.tier == 'quick' else 20):
+      desc, root = gen_seeded_noisy_desc(rng, ctx.tier)
+      if desc is None:
+        continue
+      prng = random.Random(rng.getrandbits(48))
+      cases.append({'tree': desc, 'batches': [sample_points(prng, root, prng.randint(1, 4)) for _ in range(2)]})
+  else:
+    cases = replay_job['cases']
+  if not cases:
+    return
+  tmp = tempfile.mkdtemp(prefix='vv-c20-', dir=os.environ.get('VV_TMP'))
+  try:
+    job = os.path.join(tmp, 'job.json')
+    json.dump({'cases': cases}, open(job, 'w'), default=repr)
+    cases = json.load(open(job))['cases']           # what the children see
+    outs = []
+    for salt in ('11', '4242'):
+      out = os.path.join(tmp, f'out{salt}.json')
+      env = dict(os.environ, PYTHONHASHSEED=salt)
+      r = subprocess.run([sys.executable, '-m', 'vv.c20_child', job, out], env=env, capture_output=True, text=True,
+                         timeout=300, cwd=os.path.dirname(os.path.dirname(os.path.dirname(os.path.abspath(__file__)))))
+      if not os.path.exists(out):
+        ctx.inconclusive_reason(f'c20 child failed: {r.stderr[-300:]}')
+        return
+      outs.append(json.load(open(out)))
+    quiet = M(None, None, quiet=True)
+    for k, case in enumerate(cases):
+      a, b = outs[0][k], outs[1][k]
+      if not (a['ok'] and b['ok']):
+        ctx.count('xproc_noise_cases_raised')
+        continue
+      ctx.count('xproc_noise_sequences_compared')
+      here = None
+      try:
+        tree = build_tree(quiet, case['tree'])
+        here = []
+        for pts in case['batches']:
+          trials = [mk_trial(p) for p in pts]
+          tree.exp.evaluate(trials)
+          here.append(json.loads(json.dumps(outcomes_of(trials), default=repr)))
+      except Exception:  # pylint: disable=broad-except
+        here = None
+      for name, x, y in (('two-fresh-processes', a['seq'], b['seq']), ('this-process-vs-fresh', here, a['seq'])):
+        if x is None:
+          continue
+        same = all(L.outcome_same(oa, ob) for ba, bb in zip(x, y) for oa, ob in zip(ba, bb))
+        if not same:
+          types = sorted({str(n['args'].get('type')) for n in _walk_desc(case['tree']) if n['kind'] == 'noisy'})
+          ctx.violation('noisy-not-reproducible:across-processes',
+                        f'seeded noise wrappers {types}: {name} disagree on the same seeded evaluation sequence',
+                        {'type': 'xproc', 'job': {'cases': [case]}, 'slot': slot}, {'first': x, 'second': y})
+          break
+    ctx.case(['xproc-noise', slot, len(cases)], nontrivial=True)
+  finally:
+    import shutil
+    shutil.rmtree(tmp, ignore_errors=True)
+
+
+def _walk_desc(d):
+  yield d
+  for c in d.get('children', []):
+    yield from _walk_desc(c)
+
+
 def run_shard(ctx):
   n_cases = N_CASES[ctx.tier]
+  if ctx.shard < (3 if ctx.tier == 'quick' else 8):
+    fresh_process_noise_repro(ctx, ctx.shard)
   for i in range(n_cases):
     if not ctx.mine(i):
       continue
@@ -1419,6 +1511,9 @@ def run_shard(ctx):
 
 
 def replay(ctx, case):
+  if case.get('type') == 'xproc':
+    fresh_process_noise_repro(ctx, case.get('slot', 0), replay_job=case['job'])
+    return
   if case.get('type') == 'factory':
     run_factory_case(ctx, case['factory'], case['pseed'], case.get('index', 0))
   else:
